@@ -10,6 +10,7 @@ CONSTANTS
   TG = "t22ds"
   LAYOUTS = {"dfs"}
   EMIT = TRUE
+VIEW View
 INVARIANTS LawArith ResultWellFormed
 ACTION_CONSTRAINT Emit
 CHECK_DEADLOCK FALSE
